@@ -458,9 +458,9 @@ STANDIN_BOUND = {
     "ident": "22 texts without number words x 7 languages x thresholds {0,10} must come back identical; 7 number phrases x 6 punctuation frames",
     "stream": "29 token streams x thresholds {0,10} through replace_numbers_in_stream with tokens that record their source words",
     "dec": "16 decimal phrases (7 languages): rewritten text and Occurence.value",
-    "wf": "29 token streams (7 languages, pause / not-a-number hints) x thresholds {0,10,1000}: spans ordered, text/value/is_ordinal consistent",
+    "wf": "29 token streams (7 languages, pause / not-a-number hints) x thresholds {0,10,1000}: spans ordered, text/value/is_ordinal consistent, for find_numbers and for the lazy find_numbers_iter",
     "consist": "29 token streams x 3 thresholds: validator(span words) == occurrence text; at threshold 0 no lone number word is left out",
-    "thr": "29 token streams x 3 thresholds: threshold only hides small lone numbers; 3 linked-number sentences; 7 200 systematic sequences (en, fr) of 2-3 numbers out of 6 (small / large x cardinal / ordinal) with a comma, nothing, an ordinary word or a period between them, under the property's own characterisation: reported at threshold 10 iff not small or a same-kind neighbour",
+    "thr": "29 token streams x 3 thresholds: threshold only hides small lone numbers; 3 linked-number sentences; 7 200 systematic sequences (en, fr) of 2-3 numbers out of 6 (small / large x cardinal / ordinal) with a comma, nothing, an ordinary word or a period between them, under the property's own characterisation: reported at threshold 10 iff not small or a same-kind neighbour; every single-word entry of each language's INSIGNIFICANT set (read from /repo's vocabulary files) between two small numbers: both reported, and an ordinary word in the same place: neither",
     "iter": "29 token streams x 3 thresholds: find_numbers_iter == find_numbers; hint-free streams also with tokens that keep the trait's default hint methods",
     "orule": "17 English sentences with 'o' next to words, punctuation and no-break spaces, and after a swallowed 'and' / 'point' while a number is pending; plus 270 systematic neighbourhoods: 10 left contexts x 9 right contexts (number word, ordinary word, comma, dash, other punctuation, text boundary) x 3 kinds of whitespace",
     "ncase": "11 words with non-ASCII letters, those letters capitalised",
